@@ -237,4 +237,118 @@ theorem flood (c : Cfg) (hb : c.blocking = false) (hn : c.workerLimit = 0) :
       · exact hfin a ha
     · rw [run_append, hrun1]; simpa using hrun2
 
+/-! ## several runs: a worker of run `h` only ever executes jobs handed off by the loop of run `h` -/
+
+theorem set_get_cases {α : Type} {l : List α} {i j : Nat} {x y : α} (h : (l.set i x)[j]? = some y) :
+    (j = i ∧ y = x) ∨ l[j]? = some y := by
+  rw [List.getElem?_set] at h
+  by_cases hij : i = j
+  · subst hij
+    simp only [if_true] at h
+    split at h
+    · exact Or.inl ⟨rfl, (Option.some.inj h).symm⟩
+    · cases h
+  · simp only [hij, if_false] at h
+    exact Or.inr h
+
+def InvR (s : RSt) : Prop :=
+  ∀ (h : Nat) (r : RunRec), s.runs[h]? = some r → ∀ (i g : Nat), r.workers[i]? = some (.busy g) → g = h
+
+theorem invR_setRun {s : RSt} {g : Nat} {r' : RunRec} (hi : InvR s)
+    (hr : ∀ (i g' : Nat), r'.workers[i]? = some (.busy g') → g' = g) : InvR (setRun s g r') := by
+  intro h r hh i g' hw
+  simp only [setRun] at hh
+  rcases set_get_cases hh with ⟨rfl, rfl⟩ | hh'
+  · exact hr i g' hw
+  · exact hi h r hh' i g' hw
+
+theorem invR_step (s s' : RSt) (a : RAct) (hi : InvR s) (hs : rstep RunsCode.std s a = some s') : InvR s' := by
+  cases a <;> simp only [rstep] at hs
+  case start n =>
+    cases hs
+    intro h r hh i g hw
+    by_cases hl : h < s.runs.length
+    · rw [List.getElem?_append_left hl] at hh; exact hi h r hh i g hw
+    · rw [List.getElem?_append_right (by omega)] at hh
+      rcases Nat.eq_zero_or_pos (h - s.runs.length) with h0 | h0
+      · rw [h0] at hh
+        simp only [List.getElem?_cons_zero, Option.some.injEq] at hh
+        subst hh
+        simp only [List.getElem?_replicate] at hw
+        split at hw <;> cases hw
+      · rw [List.getElem?_eq_none (by simp; omega)] at hh; cases hh
+  case cancel g =>
+    split at hs
+    · rename_i r hr; cases hs
+      exact invR_setRun hi (fun i g' hw => hi g r hr i g' hw)
+    · cases hs
+  case fetch g =>
+    split at hs
+    · rename_i r hr
+      split at hs <;> cases hs
+      exact invR_setRun hi (fun i g' hw => hi g r hr i g' hw)
+    · cases hs
+  case handoff g h i =>
+    split at hs
+    · rename_i rg rh hrg hrh
+      split at hs
+      · rename_i hc
+        have hgh : g = h := by
+          have := hc.2.2.1
+          simpa [RunsCode.chanOf, RunsCode.std] using this
+        have hi1 : InvR (setRun s g { rg with holding := false }) :=
+          invR_setRun hi (fun i g' hw => hi g rg hrg i g' hw)
+        split at hs
+        · rename_i rh' hrh'
+          cases hs
+          apply invR_setRun hi1
+          intro j g' hw
+          rcases set_get_cases hw with ⟨_, hb⟩ | hw'
+          · cases hb; exact hgh
+          · exact hi1 h rh' hrh' j g' hw'
+        · cases hs
+      · cases hs
+    · cases hs
+  case loopExit g =>
+    split at hs
+    · rename_i r hr
+      split at hs <;> cases hs
+      exact invR_setRun hi (fun i g' hw => hi g r hr i g' hw)
+    · cases hs
+  case workerDone h i =>
+    split at hs
+    · rename_i r hr
+      split at hs
+      · cases hs
+        apply invR_setRun hi
+        intro j g' hw
+        rcases set_get_cases hw with ⟨_, hb⟩ | hw'
+        · cases hb
+        · exact hi h r hr j g' hw'
+      · cases hs
+    · cases hs
+  case workerExit h i =>
+    split at hs
+    · rename_i r hr
+      split at hs <;> cases hs
+      apply invR_setRun hi
+      intro j g' hw
+      rcases set_get_cases hw with ⟨_, hb⟩ | hw'
+      · cases hb
+      · exact hi h r hr j g' hw'
+    · cases hs
+
+theorem invR_run : ∀ (as : List RAct) (s s' : RSt), InvR s → rrun RunsCode.std s as = some s' → InvR s' := by
+  intro as
+  induction as with
+  | nil => intro s s' hi h; simp [rrun] at h; subst h; exact hi
+  | cons a as ih =>
+    intro s s' hi h
+    simp only [rrun] at h
+    cases hst : rstep RunsCode.std s a with
+    | none => simp [hst] at h
+    | some s1 =>
+      simp [hst] at h
+      exact ih s1 s' (invR_step s s1 a hi hst) h
+
 end Pool
